@@ -193,10 +193,22 @@ class Engine:
         while self.side_seen < len(self.alg.side):
             kind, f = self.alg.side[self.side_seen]
             self.side_seen += 1
-            if kind == "undef-cast-range":
+            if kind in ("undef-cast-range", "fact"):
                 self.facts.append(f)
             else:
                 self.oblige(f"side:{kind}", f, kind="side")
+
+    def drain(self):
+        """Facts (definitional axioms of RNE / undefined casts) produced by element evaluations done *after*
+        a path ended, e.g. by property code building its goals.  Side obligations produced there are dropped:
+        property code states its own goals."""
+        out = []
+        while self.side_seen < len(self.alg.side):
+            kind, f = self.alg.side[self.side_seen]
+            self.side_seen += 1
+            if kind in ("undef-cast-range", "fact"):
+                out.append(f)
+        return out
 
     def oblige(self, name, goal, kind="internal", node=None, info=None):
         goal = sym.to_z3_bool(goal)
@@ -1582,6 +1594,13 @@ class Engine:
             raise Unsupported(f"aten op attribute {name}", node)
         if isinstance(obj, BoundMethod) and name == "__self__":
             return obj.selfval
+        from .values import PyNative
+
+        if isinstance(obj, PyNative):
+            if hasattr(obj, name):
+                v = getattr(obj, name)
+                return NativeMethod(obj, name) if callable(v) and not isinstance(v, (Closure, Builtin)) else v
+            raise RaiseEx(ExcVal(self.exc_class("AttributeError"), [f"no attribute '{name}'"]), node)
         if isinstance(obj, (list, tuple, dict, str, set, int, float)) and not isinstance(obj, bool):
             if isinstance(obj, tuple) and name in ("numel",):
                 from .values import numel_of
